@@ -820,7 +820,7 @@ func checkDeleteSeq(o *Out, op string, hs gts.Sequence, i, n int, res string) {
 	if op == "seq_erase" {
 		for _, f := range hs.Features() {
 			_, cnt := findFeature(out.Features(), f.Key)
-			inside := gts.LocationWithin(f.Loc, i, i+n)
+			inside := withinIndep(f.Loc, i, i+n) // written here, not gts.LocationWithin
 			if f.Key != "source" && inside && cnt != 0 {
 				o.Violate("erase-keeps-feature-inside", line, f.Key)
 			}
@@ -829,6 +829,37 @@ func checkDeleteSeq(o *Out, op string, hs gts.Sequence, i, n int, res string) {
 			}
 		}
 	}
+}
+
+// withinIndep: every part of the location lies inside [lo,hi] (sites) / [lo,hi) (bases)
+func withinIndep(l gts.Location, lo, hi int) bool {
+	switch v := l.(type) {
+	case gts.Between:
+		return lo <= int(v) && int(v) <= hi
+	case gts.Point:
+		return lo <= int(v) && int(v)+1 <= hi
+	case gts.Ranged:
+		return lo <= v.Start && v.End <= hi
+	case gts.Ambiguous:
+		return lo <= v.Start && v.End <= hi
+	case gts.Complemented:
+		return withinIndep(v.Location, lo, hi)
+	case gts.Joined:
+		for _, e := range v {
+			if !withinIndep(e, lo, hi) {
+				return false
+			}
+		}
+		return true
+	case gts.Ordered:
+		for _, e := range v {
+			if !withinIndep(e, lo, hi) {
+				return false
+			}
+		}
+		return true
+	}
+	return false
 }
 
 func checkSliceSeq(o *Out, hs gts.Sequence, s, e int, res string) {
@@ -1129,6 +1160,10 @@ func runC05(o *Out) {
 		checkReverse(o, l, L, res)
 		// reverse-complement preserves the extracted sequence
 		var hf gts.FeatureSlice
+		// every key is treated alike, the source feature included
+		if k%2 == 0 {
+			hf = hf.Insert(mkFeat("source", gts.Range(0, L)))
+		}
 		hf = hf.Insert(mkFeat("f", l))
 		hs := gts.New(nil, hf, append([]byte(nil), seqb...))
 		o.Run("seq_reverse", true, "seq_reverse", seqSx(hs))
@@ -1235,6 +1270,13 @@ func checkRevComp(o *Out, hs gts.Sequence, l gts.Location) {
 		o.Violate("panic", line, "reverse-complement")
 		return
 	}
+	if src, n := findFeature(rc.Features(), "source"); n == 1 {
+		// the source feature of the reverse complement still extracts the whole original
+		whole, ok := safeSeq(func() gts.Sequence { return src.Loc.Region().Locate(rc) })
+		if !ok || !bytes.Equal(whole.Bytes(), hs.Bytes()) {
+			o.Violate("revcomp-extract-source", line, fmt.Sprintf("source %s extracts %q", locSx(src.Loc), whole.Bytes()))
+		}
+	}
 	f, cnt := findFeature(rc.Features(), "f")
 	if cnt != 1 {
 		o.Violate("feature-lost", line, "")
@@ -1288,6 +1330,32 @@ func runC10(o *Out) {
 					checkUndo(o, op, hs, l, i, n, back)
 				}
 			}
+		}
+	}
+	// a feature listed twice (same key, location and qualifiers) is two features:
+	// both come back from insert;delete, embed;delete and slice;concat
+	for _, l := range []gts.Location{gts.Range(2, 5), gts.Join(gts.Range(0, 2), gts.Range(4, 6)), gts.Complemented{Location: gts.Point(3)}} {
+		// built as a literal: the table under test is not assembled by the function under test
+		hf := gts.FeatureSlice{mkFeat("source", gts.Range(0, L)), mkFeat("d", l), mkFeat("d", l)}
+		hs := gts.New(nil, hf, letters(L))
+		gs := gts.New(nil, nil, []byte("XX"))
+		for _, i := range []int{0, 3, L} {
+			for _, op := range []string{"seq_insert", "seq_embed"} {
+				mid := o.Run(op+"-dup", true, op, seqSx(hs), itoa(i), seqSx(gs))
+				if !strings.HasPrefix(mid, "ok ") {
+					continue
+				}
+				back := o.Run("delete-after-"+op+"-dup", true, "seq_delete", mid[3:], itoa(i), "2")
+				if strings.HasPrefix(back, "ok ") {
+					if _, cnt := findFeature(parseSeq(back[3:]).Features(), "d"); cnt != 2 {
+						o.Violate("duplicate-feature-lost", join(op+";seq_delete", seqSx(hs), itoa(i)), fmt.Sprintf("%d of 2 copies left", cnt))
+					}
+				}
+			}
+			a, b := gts.Slice(parseSeq(seqSx(hs)), 0, i), gts.Slice(parseSeq(seqSx(hs)), i, L)
+			o.Run("slice-dup", true, "seq_slice", seqSx(hs), "0", itoa(i))
+			o.Run("slice-dup", true, "seq_slice", seqSx(hs), itoa(i), itoa(L))
+			o.Run("concat-dup", true, "seq_concat", "("+seqSx(a)+" "+seqSx(b)+")")
 		}
 	}
 	// cut sets and concat
